@@ -9,6 +9,7 @@ import Q1t.Proofs.TableauBits
 import Q1t.Proofs.TableauFinite
 import Q1t.Proofs.TableauWitness
 import Q1t.Proofs.TableauContractQ8
+import Q1t.Proofs.TableauDetShape
 /-!
 # C03 — stabilizer tableau semantics equal state-vector semantics
 
@@ -281,6 +282,19 @@ theorem reachable_sound [SimAmp α] {nz : α → Prop} (n : Nat) (tbl : Q1t.Conj
     (hr : Reach (A := A) α n Q1t.Gen.phaseTable tbl noCheck t ψ) :
     StabG A t ψ ∧ t.n = n ∧ ∃ u : α, normSqSum ψ * u = 1 :=
   reach_sound n Q1t.Gen.phaseTable tbl noCheck h hs phaseTable_correct hp hT hD t ψ hr
+
+/-- **Semantic core of `DetShapeHolds`, all `n`** (the counting-free argument): if `t` stabilizes a non-zero `ψ`
+and every stabilized vector is a multiple of `ψ` (`Uniq`), and column `q` has no X/Y, then no product
+`Y = F₁·…·F_m` of Pauli strings commutes with every row of `t` (even number of anticommuting factors per row) while
+anticommuting with `Z_q`.  What is still missing for `DetShapeHolds`: `Uniq` is preserved by `apply_gate` /
+`collapse` / `reset`; rows of a `normalize` output own private pivot columns; the choice of `Y` from those. -/
+theorem detshape_core_no_anticentral (h : LawfulAmp α A) (t : Tab) (ψ : List α) (hst : StabG A t ψ)
+    (hu : Uniq A t ψ) (hnz : ∃ x ∈ ψ, x ≠ 0) (q : Nat) (hq : q < t.n)
+    (hxfree : ∀ (i : Nat) r, t.rows[i]? = some r → xAt r q = false)
+    (Fs : List (List P)) (hF : ∀ F ∈ Fs, F.length = t.n)
+    (hcomm : ∀ (i : Nat) r, t.rows[i]? = some r → antiCount Fs r % 2 = 0)
+    (hanti : antiCount Fs (zRow t.n q) % 2 = 1) : False :=
+  no_anticentral h t ψ hst hu hnz q hq hxfree Fs hF hcomm hanti
 
 end contract
 
